@@ -93,10 +93,18 @@ Call(o, v, ti) ==
   /\ Log([op |-> "Call", obj |-> o, variant |-> v, t |-> ti])
   /\ UNCHANGED <<shtol, dicts>>
 
+(* Query: a public helper method of the solver object that only computes (EPpiston.Plastic_Residual, ...): *)
+(* reads the object's configuration, writes nothing                                                        *)
+Query(o, q) ==
+  /\ o \in DOMAIN objs
+  /\ Log([op |-> "Query", obj |-> o, q |-> q])
+  /\ UNCHANGED <<objs, glob, shtol, dicts, read>>
+
 Next == /\ Len(hist) < MaxOps
         /\ \/ \E o \in Objs, c \in Classes, k \in Cfgs, d \in Objs : Construct(o, c, k, d)
            \/ \E o \in Objs, t \in Tols : SetTol(o, t)
            \/ \E o \in Objs : Solve(o)
+           \/ \E o \in Objs, q \in {1, 2} : Query(o, q)
            \/ \E o \in Objs, v \in Variants, ti \in {1, 2} : Call(o, v, ti)
 Spec == Init /\ [][Next]_vars
 
